@@ -515,6 +515,11 @@ fn c04_case(ctx: &Ctx, case: u64, acc: &mut Acc) -> Verdict {
         cfg.pg = Some((cfg.p / 2, 2));
     }
     let sim_seed = r.next();
+    // periodic announce in a third of the configurations: Announce and the Feed that answers it then flow in the
+    // formed cluster too and become drop candidates (the statement names Feed explicitly)
+    if r.chance(1, 3) {
+        cfg.pa = Some((cfg.p * r.range(1, 3) / 2, r.range(1, 3) as usize));
+    }
     // reference run: count datagrams in a window of more than one full rotation of every member
     let window = (2 * n as u64 + 1) * cfg.p;
     let Some(mut reference) = formed(sim_seed, n, &cfg, renew, lat, acc)? else {
@@ -788,7 +793,7 @@ pub fn c04() -> Check {
         level: "fault_enumeration",
         rule: "inside the deterministic envelope (suspect_to_down_after >= (2n+1)P, max_transmissions >= max(10,2n^2), P = 3R, latency < R/4 or < 0.9R so that indirect-probe relays flow, remove_down_after far away) a formed run is rebuilt per fault and exactly one datagram of a window covering more than one full rotation of every member is dropped (32 slots per configuration, seeded offset inside the slot), n in 2..=6 quick / 2..=11 thorough, notify_down_members on/off, renewable or not. Oracle: no MemberDown/Defunct/Rejoin/Idle anywhere, no TurnUndead datagram at all, identities unchanged, everyone lists everyone as Alive again within 4n+2 periods. Non-trivial: a suspicion was raised or extra indirect probes ran. Distinct by (configuration, dropped index, kind).",
         assumptions: &["the envelope makes SWIM's refutation race deterministic; outside it the property is probabilistic and carries no verdict"],
-        required: &["single_loss_runs", "runs_with_suspicion_raised_and_refuted", "dropped/Ping", "dropped/Ack"],
+        required: &["single_loss_runs", "runs_with_suspicion_raised_and_refuted", "dropped/Ping", "dropped/Ack", "dropped/Feed", "dropped/Gossip"],
         workloads: vec![Workload { name: "drop", f: c04_case, quick: 3_200, thorough: 320_000, flav: Flav::Checked }],
         exhaustive: false,
     }
